@@ -304,10 +304,11 @@ PROPS = {
     ),
     "C01": dict(
         level="model_checking",
-        level_text="'f(b) returns' = every compiler-inserted check (slice bounds, arithmetic overflow, unwrap/expect, debug_assert, unreachable) reachable from the function is discharged. Verus discharges them for all inputs on the extracted bodies (record framing, plaintext glue, handshake / extension / DTLS dispatchers, record-payload containers, multi-record parsers) and - with NO precondition on the object state, hence for every finite call sequence - on all four TlsRecordsParser methods, including the 10 MiB buffer bound. Kani discharges them on the compiled code (crate + nom + core, overflow checks and debug assertions on) for every body/content/leaf parser, with each manual index/subtraction guard site driven by its numeric parameter over the full usize/u16 domain (len-4, ext_len-1, len%2, len>i.len(), chunk[1], take(32)->[u8;32] expect, heartbeat len<3); bounded in input length.",
+        level_text="'f(b) returns' = every compiler-inserted check (slice bounds, arithmetic overflow, unwrap/expect, debug_assert, unreachable) reachable from the function is discharged. Verus discharges them for all inputs on the extracted bodies (record framing, plaintext glue, handshake / extension / DTLS dispatchers, record-payload containers, multi-record parsers, every handshake body parser, the 16 tag-specific and 20 content extension parsers, the derive-generated key-exchange / signature / header / alert parsers taken from the macro expansion, the SCT content parser) and - with NO precondition on the object state, hence for every finite call sequence - on all four TlsRecordsParser methods, including the 10 MiB buffer bound. Kani discharges them on the compiled code (crate + nom + core, overflow checks and debug assertions on) for every body/content/leaf parser, with each manual index/subtraction guard site driven by its numeric parameter over the full usize/u16 domain (len-4, ext_len-1, len%2, len>i.len(), chunk[1], take(32)->[u8;32] expect, heartbeat len<3); bounded in input length.",
         level_note="NOT decided: the heap-use bound (neither verifier has a resource model; only the defragmenter's buffer cap is proved); Debug/Display of structured values (core::fmt is beyond CBMC's budget; tls_debug.rs has no indexing and one multiplication dh_g.len()*8 bounded by the parser's u16 length; registry newtypes' Display/Debug run for every value in the C17 stand-in); termination of nom's many0/many1 loops beyond the stated input bounds (their progress guard is in nom's source; the shim harnesses exercise it).",
         technique="contract-based deductive verification (Verus, unbounded) + Kani panic-freedom obligations on the compiled code (bounded length)",
-        verus=["defrag", "frame", "plaintext", "many", "dispatch_hs", "dispatch_ext", "ext_lists", "bodies", "bodies2", "messages", "ext_contents", "ext_lists2", "sct", "dtls", "dtls_many"],
+        verus=["defrag", "frame", "plaintext", "many", "dispatch_hs", "dispatch_ext", "ext_lists", "bodies", "bodies2", "messages", "ext_contents", "ext_lists2", "sct", "dtls", "dtls_many",
+               "hellos", "certs", "certreq", "tagged", "derived", "sct_content", "accessors"],
         kani=[dict(quick=["leaf_cipher_suites", "leaf_compressions", "leaf_tls_versions", "leaf_named_groups", "leaf_hs_newsessionticket", "leaf_ext_status_request", "leaf_ext_supported_versions",
                           "leaf_sct_entry", "leaf_msg_heartbeat", "leaf_prwh_heartbeat", "leaf_prwh_appdata", "fd_raw_record_small", "mod_client_hello", "mod_dtls_client_hello",
                           "leaf_hs_certificate", "leaf_ext_sni", "leaf_ec_parameters", "fd_dtls_header", "fd_defrag_default"],
